@@ -930,14 +930,25 @@ func (g *gen) sched(n int) {
 			readers = append(readers, sr)
 			contents = append(contents, d)
 		}
-		g.runSched(readers, contents)
+		// every third case: two store objects on the directory; every fourth: files already in tmp/
+		g.runSched(readers, contents, i%3 == 1, i%4 == 2)
 	}
 }
 
-func (g *gen) runSched(readers []*scriptReader, contents [][]byte) {
+func (g *gen) runSched(readers []*scriptReader, contents [][]byte, two, strays bool) {
 	r := g.r
-	e := newFsEnv(false, r)
+	e := newFsEnv(strays, r)
 	defer e.close()
+	stores := []objects.Objects{e.o}
+	kind := "fs"
+	if two {
+		o2, err := objects.NewFS(e.dir)
+		if err != nil {
+			panic(err)
+		}
+		stores = append(stores, o2)
+		kind = "fs2"
+	}
 	nthr := len(readers)
 	done := make([]chan Obs, nthr)
 	finished := make([]bool, nthr)
@@ -956,7 +967,7 @@ func (g *gen) runSched(readers []*scriptReader, contents [][]byte) {
 	}
 	sort.Strings(pk)
 	tab := newTab()
-	c := &Case{Stream: "sched", Kind: "fs"}
+	c := &Case{Stream: "sched", Kind: kind}
 	left := nthr
 	for left > 0 && len(c.Steps) < 400 {
 		var cand []int
@@ -969,7 +980,7 @@ func (g *gen) runSched(readers []*scriptReader, contents [][]byte) {
 		sr := readers[t]
 		if !sr.started {
 			sr.started = true
-			go func(t int) { done[t] <- createObs(e.o, readers[t]) }(t)
+			go func(t int) { done[t] <- createObs(stores[t%len(stores)], readers[t]) }(t)
 		} else {
 			sr.gate <- struct{}{}
 		}
@@ -986,7 +997,7 @@ func (g *gen) runSched(readers []*scriptReader, contents [][]byte) {
 		}
 		st := Step{Tid: t, Ls: e.ls(), Probes: []Probe{}}
 		for _, k := range pk {
-			st.Probes = append(st.Probes, Probe{Key: k, Obs: openObs(e.o, k)})
+			st.Probes = append(st.Probes, Probe{Key: k, Obs: openObs(stores[(len(c.Steps)+len(st.Probes))%len(stores)], k)})
 		}
 		c.Steps = append(c.Steps, st)
 	}
@@ -1002,8 +1013,90 @@ func (g *gen) runSched(readers []*scriptReader, contents [][]byte) {
 	c.Results = results
 	fin := e.ls()
 	c.Final = &fin
+	c.Strays = e.straysState()
 	c.Tab = tab.rows
 	g.emit(c)
+}
+
+// ---- a slow writer watched from outside its lock ---------------------------
+//
+// Large contents are created through one store object while other goroutines
+// keep opening the key through a second store object on the same directory
+// (which has its own mutex) and read the file directly.  Whatever they get
+// must be the whole object: the final name only ever appears by rename.
+
+func (g *gen) peek(n, size int) {
+	r := g.r
+	for i := 0; i < n; i++ {
+		e := newFsEnv(false, r)
+		o2, err := objects.NewFS(e.dir)
+		if err != nil {
+			panic(err)
+		}
+		c := &Case{Stream: "fs-peek", Kind: "fs2"}
+		for round := 0; round < 3; round++ {
+			d := bytes.Repeat([]byte{byte(1 + r.Intn(255))}, size+r.Intn(size))
+			d = append(d, newStream(r, 12+r.Intn(20))...)
+			key := shaHex(d)
+			stop := make(chan struct{})
+			var mu sync.Mutex
+			var probes []Probe
+			var wg sync.WaitGroup
+			for p := 0; p < 4; p++ {
+				wg.Add(1)
+				go func(p int) {
+					defer wg.Done()
+					for {
+						select {
+						case <-stop:
+							return
+						default:
+						}
+						var ob Obs
+						if p%2 == 0 {
+							ob = openObsRaw(o2, key)
+						} else {
+							bs, err := os.ReadFile(filepath.Join(e.dir, key))
+							if err != nil {
+								ob = Obs{T: "notfound"}
+							} else {
+								ob = Obs{T: "found", d: bs}
+							}
+						}
+						if ob.T == "found" {
+							// only the digest and the length travel: the contents are megabytes
+							ob.Msg = fmt.Sprintf("%d:%s", len(ob.d), shaHex(ob.d))
+							ob.B, ob.d = nil, nil
+						}
+						mu.Lock()
+						if len(probes) < 40 || (ob.T == "found" && !strings.HasSuffix(ob.Msg, key)) {
+							if len(probes) < 400 {
+								probes = append(probes, Probe{Key: key, Obs: ob})
+							}
+						}
+						mu.Unlock()
+					}
+				}(p)
+			}
+			sr := newScript(splitPlan(r, d, 0, round%2))
+			ob := createObs(e.o, sr)
+			close(stop)
+			wg.Wait()
+			c.Results = append(c.Results, ob)
+			c.Ops = append(c.Ops, Op{Op: "create", Key: key, H: len(d)})
+			last := openObsRaw(o2, key)
+			if last.T == "found" {
+				last.Msg = fmt.Sprintf("%d:%s", len(last.d), shaHex(last.d))
+				last.B, last.d = nil, nil
+			}
+			probes = append(probes, Probe{Key: key, Obs: last})
+			c.Opens = append(c.Opens, probes...)
+		}
+		fin := e.ls()
+		c.Final = &fin
+		e.close()
+		g.emit(c)
+	}
 }
 
 // ---- free-running goroutines -----------------------------------------------
@@ -1623,7 +1716,7 @@ func main() {
 	dir := flag.String("dir", "", "scratch directory for store directories")
 	big := flag.Int("big", 70000, "size of the largest contents")
 	deep := flag.Int("deep", 1, "depth of the enumerations")
-	streams := flag.String("streams", "", "comma separated subset of: mem,fsfault,fsos,fshist,sched,free,cr (default all)")
+	streams := flag.String("streams", "", "comma separated subset of: mem,fsfault,fsos,fshist,sched,peek,free,cr (default all)")
 	flag.Parse()
 	if *dir == "" {
 		fmt.Fprintln(os.Stderr, "need -dir")
@@ -1661,6 +1754,9 @@ func main() {
 	}
 	if on("sched") {
 		g.sched(*n / 2)
+	}
+	if on("peek") {
+		g.peek(2+*deep, *big*16)
 	}
 	if on("free") {
 		g.free(*n/4, []string{"fs", "fs2", "mem", "mapped", "fs"})
